@@ -494,14 +494,19 @@ GetX(o, name, oret, ocname) ==
                                         val |-> View1(kind, t1[o], Props(kind)[i].name)]]
 Get(o, name) == Resolve1(kind, name) >= 0 /\ GetX(o, name, "", "")
 
-(* generic assignment from the sibling: set_property(NULL | "", source)    *)
+(* generic assignment from the sibling.  mode: "null" / "empty" =           *)
+(* set_property(NULL | "", source); "clone" = metatype::clone();            *)
+(* "props" = object::set(const object &), property by property (its return  *)
+(* value is an index, not an answer).                                       *)
+CopyModes == {"null", "empty", "clone", "props"}
 Copy(o, from, mode) ==
   LET arg == [o |-> o - 1, from |-> from - 1, mode |-> mode] IN
   /\ IF o = from THEN Same
      ELSE /\ t1' = [t1 EXCEPT ![o] = t1[from]]
           /\ t2' = [t2 EXCEPT ![o] = Dup2(kind, t2[from], nid)]
           /\ nid' = nid + 2 /\ UNCHANGED kind
-  /\ Answer("copy", arg, "ok", "", <<>>)
+  /\ obs' = [a |-> "copy", arg |-> arg, tgt |-> "", den |-> <<>>,
+             exp |-> [Exp("ok") EXCEPT !.ret = IF mode = "props" THEN "any" ELSE "ok"]]
 
 (* the caller overwrites the string bytes of one object in place / ends it *)
 Scribble(o) ==
@@ -525,6 +530,11 @@ CParseX(c, oret, oval) ==
                        [] r.ret = "refused" -> [ret |-> "refused", col |-> <<1, 2, 3, 4>>]
                        [] OTHER -> [ret |-> oret, col |-> oval]]
 CParse(c) == ParseColor(c).ret \in {"ok", "refused"} /\ CParseX(c, "", <<>>)
+(* operator<<(ostream, color), and the printed text parsed again *)
+CPrint(c) ==
+  /\ Same
+  /\ obs' = [a |-> "cprint", arg |-> [c |-> c], tgt |-> "", den |-> <<>>,
+             exp |-> [ret |-> "ok", txt |-> PrintColor(c), col |-> ParseColor(PrintColor(c)).den]]
 
 ---------------------------------------------------------------------------
 (* value classes offered by the exhaustive / export runs                   *)
@@ -623,9 +633,10 @@ AnyOp ==
   \/ \E nc \in CanonNames(kind) \cup AliasNames(kind) \cup ExtraSetNames(kind) : Reset(1, nc)
   \/ \E nc \in GetNames(kind) : Get(1, nc)
   \/ \E v \in {Rle(<<104, 1, 105, 1>>), Rle(<<122, 90>>), Col(<<64, 3, 2, 1>>), Txt(W_abc)} : Auto(1, v)
-  \/ \E m \in {"null", "empty"} : Copy(1, 2, m) \/ Copy(2, 1, m) \/ Copy(1, 1, m)
+  \/ \E m \in CopyModes : Copy(1, 2, m) \/ Copy(2, 1, m) \/ Copy(1, 1, m)
   \/ Scribble(1) \/ Scribble(2) \/ Fini(2) \/ Fini(1)
   \/ \E v \in ColVals : v.f = "txt" /\ CParse(v.c)
+  \/ \E c \in {<<255, 0, 0, 0>>, <<255, 255, 128, 1>>, <<0, 10, 171, 16>>, <<128, 15, 0, 255>>, <<254, 9, 9, 9>>} : CPrint(c)
 
 Next == ops < MaxOps /\ ops' = ops + 1 /\ AnyOp
 Spec == Init /\ [][Next]_vars
@@ -676,5 +687,5 @@ CopyEqual == [][obs'.a = "copy" =>
                  /\ AllView2(kind, t2'[obs'.arg.o + 1]) = AllView2(kind, t2[obs'.arg.from + 1])
                  /\ t2'[obs'.arg.from + 1] = t2[obs'.arg.from + 1] \/ obs'.arg.from = obs'.arg.o]_vars
 \* reads change nothing
-ReadOnly == [][obs'.a \in {"get", "cparse"} => (t2' = t2 /\ t1' = t1)]_vars
+ReadOnly == [][obs'.a \in {"get", "cparse", "cprint"} => (t2' = t2 /\ t1' = t1)]_vars
 =============================================================================
